@@ -40,7 +40,7 @@ func (s *Session) lemmaObligation(name string) (*Obligation, error) {
 		if err != nil {
 			return nil, fmt.Errorf("lemma %s: %v", name, err)
 		}
-		o := &Obligation{Name: "lemma:" + name, Fn: "lemma", Kind: "lemma", Label: name, Goal: g, Reach: "true", NAssume: len(tx.assumes), Src: lm.Src, tx: tx}
+		o := &Obligation{Name: "lemma:" + name, Fn: "lemma", Kind: "lemma", Label: name, Goal: g, Reach: "true", NAssume: len(tx.assumes), Src: lm.Src, tx: tx, Block: -1}
 		return o, nil
 	}
 	return nil, fmt.Errorf("lemma %s not found in the contract files", name)
